@@ -39,6 +39,7 @@ class Tape:
     def __init__(self, prefix=()):
         self.prefix = list(prefix)
         self.points = []  # (n_options, taken, label)
+        self.unobservable = None
 
     def choose(self, n, label=""):
         if n <= 1:
@@ -143,13 +144,15 @@ def _make_sub(is_max):
             else:
                 picks = [int(x) for x in np.asarray(res).reshape(-1)]
             for t, p in zip(ties, picks):
+                # a real primitive that returns a non-optimum is C18's finding; here the run is merely not replayable
                 if len(t) > 1:
                     pos = np.flatnonzero(t == p)
                     if len(pos) != 1:
-                        raise Divergence(f"real {label} returned a non-optimum {p} not in {t.tolist()}")
+                        tape.unobservable = f"real {label} returned a non-optimum {p} not in {t.tolist()}"
+                        continue
                     tape.points.append((len(t), int(pos[0]), label))
                 elif len(t) == 1 and t[0] != p:
-                    raise Divergence(f"real {label} returned {p}, unique optimum is {t[0]}")
+                    tape.unobservable = f"real {label} returned {p}, unique optimum is {t[0]}"
             return res
         # substitution: consume exactly what the real function consumes
         if isinstance(random_state, TapeRNG):
